@@ -27,6 +27,11 @@
 #include <sys/stat.h>
 #include <sys/types.h>
 #include <sys/wait.h>
+#ifdef VERIF_COV
+/* coverage builds (tools/coverage.py): forked children that leave through _exit() still flush their counters */
+extern void __gcov_dump(void);
+#define _exit(x) do { __gcov_dump(); (_exit)(x); } while (0)
+#endif
 
 /* ------------------------------------------------------------------ rng */
 typedef struct { uint64_t s[4]; } rng_t;
